@@ -52,6 +52,7 @@ def histWordsMax : Nat := Gen.SequenceHistoryWordCount.toNat      -- 8
 def ringCap : Nat := Gen.RING_BUFFER_SIZE.toNat - 1               -- 255 usable slots
 def maxChannels : Nat := Gen.DEFAULT_MAX_CHANNEL_SIZE.toNat       -- 32767
 def maxGroup : Nat := Gen.EXTENT_HandleBunch.toNat                -- 256
+def reliableBuffer : Nat := Gen.UTCP_RELIABLE_BUFFER.toNat        -- 256
 def keepAliveMs : Int := Gen.KeepAliveTime                        -- 200
 def connectTimeoutMs : Int := Gen.UTCP_CONNECT_TIMEOUT            -- 120000
 def maxSingleBunchBits : Nat := Gen.PKT_MAX_SINGLE_BUNCH_SIZE_BITS.toNat
@@ -562,6 +563,8 @@ def absSeq (c : Conn) (x : Channel) (b : Bunch) : Bunch :=
 def Conn.processBunch (c : Conn) (x : Channel) (b : Bunch) : Conn × Bool :=
   if b.bReliable && decide (b.chSeq ≤ x.inReliable) then (c.emit (.free .node), false)
   else if b.bReliable && b.chSeq != x.inReliable + 1 then
+    -- the queue is bounded (`UTCP_RELIABLE_BUFFER`): a bunch that does not fit is refused and the packet is not acknowledged
+    if x.inRec.length + 1 ≥ reliableBuffer then (c.emit (.free .node), true) else
     match enqueueIncoming b x.inRec with
     | some q => (c.setChan b.chIndex { x with inRec := q }, false)
     | none => (c.emit (.free .node), false)
